@@ -35,14 +35,17 @@ static inline void myth_rwbarrier() {
 //Guarantees successive reads to be executed after this
 static inline void myth_rbarrier() {
   int x=0, y=0;
+  MYTH_VERIF_PROBE(MYTH_VS_FENCE_R, 0);
   asm volatile("xchgl %0,%1":"=r"(x):"m"(y),"0"(x):"memory");
 }
 //Guarantees former writes to be executed before this
 static inline void myth_wbarrier() {
+  MYTH_VERIF_PROBE(MYTH_VS_FENCE_W, 0);
   asm volatile("":::"memory");
 }
 //rbarrier+wbarrier
 static inline void myth_rwbarrier() {
+  MYTH_VERIF_PROBE(MYTH_VS_FENCE_RW, 0);
   myth_rbarrier();
 }
 
